@@ -458,6 +458,12 @@ def run_scenario(sc):
                 await p.send_offsets_to_transaction(offs, GROUP)
                 rec["offsets"] += [[q, o] for q, o in txn["offsets"]["items"]]
                 net.ev("app_offsets_ok", inst=inst.i, k=rec["k"], items=txn["offsets"]["items"])
+                for gi, g2 in enumerate(txn["offsets"].get("more_groups") or []):
+                    # the same transaction commits offsets of further consumer groups (own offset values: +1000 each)
+                    offs2 = {TopicPartition("t", q): o + 1000 * (gi + 1) for q, o in txn["offsets"]["items"]}
+                    await p.send_offsets_to_transaction(offs2, g2)
+                    rec["offsets"] += [[q, o + 1000 * (gi + 1)] for q, o in txn["offsets"]["items"]]
+                    net.ev("app_offsets_ok", inst=inst.i, k=rec["k"], group=g2)
 
             bg = []
 
@@ -625,7 +631,7 @@ def run_scenario(sc):
         g = net.gc.groups.get(GROUP)
         out["group_offsets"] = {str(k[1]): v[0] for k, v in (g.offsets.items() if g else [])}
         out["group_commit_log"] = [{k: v for k, v in c.items() if k in ("partition", "offset", "txn", "t")}
-                                   for c in (g.commit_log if g else [])]
+                                   for gx in net.gc.groups.values() for c in gx.commit_log]
         keep = ("request", "arrive", "init_pid", "txn_add_partitions", "txn_add_offsets", "txn_offset_commit",
                 "txn_prepare", "txn_end", "txn_fence", "txn_coordinator_move", "coordinator_move", "kill",
                 "kill_point", "quiet_begin", "reply")
